@@ -16,7 +16,9 @@ def load(root):
     return jsonschema, validators, exceptions
 
 
-DOC = {"definitions": {"x": {"type": "integer"}, "y": {"minimum": 3}, "rel": {"$ref": "#/definitions/x"}}}
+# the document declares an id different from the URL it is retrieved from (a mirror): the store key must be the retrieval URL
+DOC = {"$id": "mem://host/canonical.json", "id": "mem://host/canonical.json",
+       "definitions": {"x": {"type": "integer"}, "y": {"minimum": 3}, "rel": {"$ref": "#/definitions/x"}}}
 
 
 def templates(d):
@@ -257,7 +259,45 @@ def interleave(job):
                     out.append({"kind": "I", "draft": d, "instance": inst, "schedule": list(sched), "problem": "interleaved result differs from solo runs"})
                     if len(out) >= 2:
                         return {"failures": out, "tried": tried}
-    return {"failures": out, "tried": tried}
+    # the same schema *object* given to two validators; handlers registered after construction
+    for d in job.get("drafts", (4, 7)):
+        idk = "id" if d <= 4 else "$id"
+        cls = {3: validators.Draft3Validator, 4: validators.Draft4Validator, 6: validators.Draft6Validator, 7: validators.Draft7Validator}[d]
+        shared = {"definitions": {"t": {"type": "integer"}},
+                  "properties": {"u": {idk: "file:///nonexistent-pyvc/sub/", "properties": {"w": {"type": "integer"}, "w2": {"type": "integer"}}},
+                                 "v": {"$ref": "#/definitions/t"}}}
+        inst = {"u": {"w": None, "w2": None}, "v": None}
+        solo = summarise(cls(shared).iter_errors(inst))
+        for sched in ([0, 1, 1, 1, 1, 0, 0, 0], [0, 0, 1, 1, 1, 1, 0, 0], [1, 0, 0, 0, 0, 1, 1, 1]):
+            tried += 1
+            vs = [cls(shared), cls(shared)]
+            its = [vs[0].iter_errors(inst), vs[1].iter_errors(inst)]
+            got = [[], []]
+            try:
+                for who in sched:
+                    e = next(its[who], None)
+                    if e is not None:
+                        got[who].append(e)
+                res = [summarise(g) for g in got]
+            except Exception as e:      # noqa
+                res = "EXC %s" % type(e).__name__
+            if res != [solo, solo]:
+                out.append({"kind": "I", "draft": d, "instance": inst, "schedule": sched, "shared_schema_object": True,
+                            "problem": "two validators built from the same schema object interfere: %r" % (res if isinstance(res, str) else "different errors")})
+                break
+        docs = {"A": {"definitions": {"t": {"type": "integer"}}}, "B": {"definitions": {"t": {"type": "string"}}}}
+        sch = {"properties": {"k": {"$ref": "mem://h/doc.json#/definitions/t"}}}
+        va, vb = cls(copy.deepcopy(sch)), cls(copy.deepcopy(sch))
+        va.resolver.handlers["mem"] = lambda uri: copy.deepcopy(docs["A"])
+        vb.resolver.handlers["mem"] = lambda uri: copy.deepcopy(docs["B"])
+        tried += 1
+        try:
+            ra, rb = va.is_valid({"k": 1}), vb.is_valid({"k": 1})
+        except Exception as e:      # noqa
+            ra, rb = "EXC", type(e).__name__
+        if (ra, rb) != (True, False):
+            out.append({"kind": "I", "draft": d, "problem": "handlers registered on one validator's resolver after construction are seen by another's: results %r %r, expected True False" % (ra, rb)})
+    return {"failures": out[:3], "tried": tried}
 
 
 if __name__ == "__main__":
